@@ -1316,7 +1316,7 @@ fn stream_rel(thorough: bool, seed: u64, out: &mut dyn Write) {
     let ids = product_ids();
     let small: Vec<&String> = ids.iter().step_by(3).collect();
     for a in &small {
-        for k in 0..10 {
+        for k in 0..11 {
             writeln!(out, "route {} {}", hex(a.as_bytes()), k).unwrap();
         }
         for b in &small {
@@ -1390,7 +1390,7 @@ fn stream_rel(thorough: bool, seed: u64, out: &mut dyn Write) {
         }
         if i % 4 == 0 {
             // the same value along a second route through the safe API
-            writeln!(out, "route {} {}", hex(&x), (i / 4) % 10).unwrap();
+            writeln!(out, "route {} {}", hex(&x), (i / 4) % 11).unwrap();
         }
         if i % 40 == 7 {
             // long identifiers against their own canonical text (and near misses of it): 6 to 14 distinct variants
